@@ -1,6 +1,46 @@
+"""Replay of C07 counterexamples with root-cause tags."""
+import ast
 from harness.bref_replay import replay_with
 from harness.c07_post import idempotent
 
 
+def tags_of(files, op):
+    tags = set()
+    tree = ast.parse(files[op["path"]])
+    bound = {}
+    mods = {}
+    for st in ast.walk(tree):
+        if isinstance(st, ast.Import):
+            for a in st.names:
+                bound.setdefault(a.asname or a.name.split(".")[0], []).append(a.name)
+                mods.setdefault(a.name, []).append(a.asname)
+        elif isinstance(st, ast.ImportFrom):
+            for a in st.names:
+                bound.setdefault(a.asname or a.name, []).append((st.level, st.module, a.name))
+    if any(len(set(map(str, v))) > 1 for v in bound.values()):
+        tags.add("one-name-bound-by-several-imports")
+    stmts = {}
+    for st in ast.walk(tree):
+        if isinstance(st, ast.Import):
+            for a in st.names:
+                stmts.setdefault(a.name, []).append(id(st))
+        elif isinstance(st, ast.ImportFrom):
+            stmts.setdefault(st.module or "", []).append(id(st))
+    if any(len(set(v)) > 1 for v in stmts.values()):
+        tags.add("same-module-name-in-several-import-statements")
+    return sorted(tags)
+
+
 def replay(f):
-    return replay_with(f, post=idempotent, check_imports=True)
+    r = replay_with(f, post=idempotent, check_imports=True)
+    if r.get("reproduced"):
+        try:
+            verdict = "not_idempotent" if ":not_idempotent" in r["signature"] else "second_application_raised" if "second_application" in r["signature"] else "behaviour"
+            tags = tags_of(f["witness"]["files"], f["witness"]["op"])
+            if verdict == "behaviour":
+                # an equal sort key explains flip-flopping order, not a change of meaning
+                tags = [t for t in tags if t != "same-module-name-in-several-import-statements"]
+            r["signature"] = r["signature"].replace("|", "/") + "".join("|%s@%s" % (verdict, t) for t in tags)
+        except Exception:
+            r["signature"] = r["signature"].replace("|", "/") + "|untagged"
+    return r
